@@ -188,6 +188,16 @@ def check(ctx):
               "update_package(resources=...) replaces the package's resource list: descriptors and row streams no longer pair up")
     # 5. unique names
     stream.r27_name_uniqueness(ctx)
+    # ... and a step that RENAMES: update_resource stores whatever properties it is given into every selected resource; a `name` among
+    # them must not reach more than one resource (or an existing name) unchecked
+    import ast as _a2
+    from sa.model import u as _u2, where as _w2
+    urf = ctx.repo.func('dataflows.processors.update_resource:update_resource')
+    guarded = any(isinstance(t_, (_a2.Assert, _a2.Raise)) for t_ in _a2.walk(urf.node)) and \
+        any(isinstance(c_, _a2.Constant) and c_.value == 'name' for c_ in _a2.walk(urf.node))
+    run.check(guarded, 'R27', urf.where, urf.qualname, "a `name` among the properties is checked against the other resources",
+              "update_resource gives the `name` it was passed to every selected resource without looking at the names in the package: the "
+              'package then holds several resources of one name, and the framework pairs streams with descriptors by name')
     run.trusted += ['LF1', 'LF8 tableschema integer rejects non-integral floats',
                     'Python: int/int true division yields float; bool is a subclass of int; datetime of date']
     run.not_decided += ['validity of values produced by user callables, tabulator inference or set_type options',
